@@ -1,6 +1,6 @@
 (** C04 — property theorems only. The model is C03/Model.v ([check_operation_document]); [spec_valid] is the
     reference validator of C03/Spec.v (every implemented rule on every syntactic position). *)
-From V Require Import Base.Util Gql.Ast C03.Model C03.Spec C03.Witness C03.Proofs C03.Proofs2 C04.Proofs.
+From V Require Import Base.Util Gql.Ast C03.Model C03.Spec C03.Witness C03.Proofs C03.Proofs2 C03.Proofs3 C04.Proofs.
 
 (** check_type_compatibility accepts exactly the pairs the specification's AreTypesCompatible accepts *)
 Theorem C04_type_compat_complete : forall vt lt, types_compatible vt lt = true -> type_compat vt lt = true.
@@ -19,6 +19,33 @@ Theorem C04_check_value_complete : forall S vars,
     check_value S vars v t = [].
 Proof. exact check_value_complete. Qed.
 Print Assumptions C04_check_value_complete.
+
+(** check_arguments reports nothing when every supplied argument is defined, every required one is supplied, and the
+    value supplied for each defined argument has its type (with variables usable as above) *)
+Theorem C04_check_arguments_complete : forall S vars,
+  schema_wf S = true -> input_types_closed S = true ->
+  forall ppos pname kind args defs,
+    (forall d, In d defs -> resolves S (iv_type d) = true) ->
+    (forall a, args = Some a -> args_list a <> []) ->
+    args_defined_ok (provided args, defs) = true ->
+    required_args_ok (provided args, defs) = true ->
+    literal_types_vis S (provided args, defs) = true ->
+    Forall (use_strict vars) (args_var_uses false S (provided args) defs) ->
+    check_arguments S vars ppos pname kind args defs = [].
+Proof. exact check_arguments_complete. Qed.
+Print Assumptions C04_check_arguments_complete.
+
+(** check_directives reports nothing for a directive list in which every directive is defined, allowed at the location,
+    given well-typed arguments ([directive_fine]), and no non-repeatable directive occurs twice
+    ([nonrep] = names of the defined non-repeatable directives of the list, as in Spec.v R_directives_unique) *)
+Theorem C04_check_directives_complete : forall S vars,
+  schema_wf S = true -> input_types_closed S = true ->
+  forall loc ds,
+    (forall d, In d ds -> directive_fine S vars loc d) ->
+    nodup_str (nonrep S ds) = true ->
+    check_directives S vars loc ds = [].
+Proof. exact check_directives_complete. Qed.
+Print Assumptions C04_check_directives_complete.
 
 Theorem C04_guard_satisfiable : schema_wf w_schema_0 = true /\ input_types_closed w_schema_0 = true.
 Proof. split; vm_compute; reflexivity. Qed.
